@@ -374,6 +374,10 @@ pub unsafe fn hook_read(fd: libc::c_int, buf: *mut libc::c_void, count: libc::si
         std::panic::panic_any(crate::sim::SimPanic::Budget);
     }
     let v = next_verdict();
+    if c.cfg.yield_sys {
+        // the call blocks here for as long as the scheduler likes
+        crate::sim::yield_point();
+    }
     let (ret, e) = match v {
         IoVerdict::Pass => {
             let r = libc::read(fd, buf, count);
